@@ -6,18 +6,40 @@
 (*   cfg  cfg, ok (listener accepted), li : 0-based indices into the table, *)
 (*        res : one outcome per index (chain index, 0 default chain, -1 no chain / refused,      *)
 (*        -2 "multiple matching filter chains", -3 unknown chain)          *)
+(* Suppress = 1 turns the known-finding clause into drift (second pass).   *)
 (***************************************************************************)
 EXTENDS FilterChain, TraceIO
+CONSTANT Suppress
 VARIABLES l, lks
 vars == <<l, lks>>
 Init == l = 1 /\ lks = <<>> /\ InitRegs
 Ev == Trace[l]
 
 CheckCfg(e) ==
+  LET L(i) == lks[e.li[i] + 1]
+      \* primary reading: destination prefixes are ignored on a specific-address listener (what the
+      \* code documents); other reading: they are always applied (Envoy's algorithm).  A verdict needs
+      \* a result that agrees with neither.
+      NotPrimary == {i \in 1..Len(e.res) : e.res[i] # Select(e.cfg, L(i))}
+      Bad == IF e.cfg.wild THEN NotPrimary
+             ELSE {i \in NotPrimary : e.res[i] # Select([e.cfg EXCEPT !.wild = TRUE], L(i))}
+      \* the known deviation on a listener bound to a specific address: the survivors of the source
+      \* prefix stage are filed under two destination-prefix entries and the lookup refuses the
+      \* connection ("multiple matching filter chains") although the source port stage (or the fact
+      \* that both entries hold the SAME chain) leaves exactly one chain
+      Known == {i \in Bad : ~e.cfg.wild /\ e.res[i] = -2 /\ Cardinality(DstEntries(e.cfg, L(i))) > 1}
+  IN
   IF ~e.ok THEN Drift(Valid(e.cfg), "C49_RejectedUnambiguousConfig", l)
   ELSE /\ Mark(Ambiguous(e.cfg), "C49_AmbiguousConfigAccepted", l)
        /\ Drift(~Valid(e.cfg) /\ ~Ambiguous(e.cfg), "C49_EmptyConfigAccepted", l)
-       /\ Mark(~Ambiguous(e.cfg) /\ \E i \in 1..Len(e.res) : e.res[i] # Select(e.cfg, lks[e.li[i] + 1]), "C49_Selection", l)
+       /\ (~Ambiguous(e.cfg) =>
+             /\ Mark(Bad \ Known # {}, "C49_Selection", l)
+             /\ (IF Suppress = 1 THEN Drift(Known # {}, "C49_SpecificAddressEntriesRefused", l)
+                 ELSE Mark(Known # {}, "C49_SpecificAddressEntriesRefused", l))
+             \* a genuine tie on a specific-address listener (chains differing only in the destination
+             \* prefix) is refused at connection time, not at validation time
+             /\ Drift(NotPrimary \ Bad # {}, "C49_SpecificAddressOtherReading", l)
+             /\ Drift(\E i \in 1..Len(e.res) : Select(e.cfg, L(i)) = -2, "C49_TieOnSpecificAddressListener", l))
 
 Next == /\ l <= TLen /\ l' = l + 1 /\ Consumed(l)
         /\ CASE Ev.ev = "lks"   -> lks' = Ev.lks
